@@ -25,6 +25,7 @@ type Plan struct {
 	RepeatDepth    int  // levels 1..RepeatDepth run the repeat family; deeper levels send every request once
 	ExpandAll      bool // false: beyond level 1 only the first state found per (state class, route, action) is expanded
 	ExpandAllDepth int  // states found at levels <= ExpandAllDepth are all expanded; deeper levels: per (state, route, action) only the state reached by the best-formed request
+	ExtraFullLevel int  // thorough: after the reduced alphabet reached Depth, the rest of the full alphabet is sent from the states of this level (budget permitting)
 	Budget         time.Duration
 	C17            bool
 	Chunk          int
@@ -88,6 +89,8 @@ type Coordinator struct {
 	repSeen                                                                                                              map[string]bool
 	notExpanded                                                                                                          int
 	transientWrites                                                                                                      int
+	phases                                                                                                               []string
+	fullDepthCompleted                                                                                                   int
 	keyRechecks                                                                                                          int
 	broken                                                                                                               map[string]bool
 	exhaustive                                                                                                           bool
@@ -626,9 +629,11 @@ func (c *Coordinator) Run() int {
 		// the repeat tails of the other body variants of the same route can be suppressed (each costs one watchdog period)
 		fmt.Fprintf(os.Stderr, "[%s E-E] alphabets: %v full, %v reduced; %d state classes\n", p.Property, lens(alphaFull), lens(alphaRed), len(roots))
 		frontier := roots
+		frontiers := map[int][]*stateNode{}
 		for level := 1; level <= p.Depth && len(frontier) > 0 && !c.failed(); level++ {
 			var next []*stateNode
 			complete := true
+			frontiers[level] = frontier
 			if level == 1 && p.Repeat > 1 {
 				_, ok := c.explore(frontier, alphaRed, 0, 400) // pilot (its results are counted; states found again below)
 				c.perLevel = c.perLevel[:len(c.perLevel)-1]
@@ -653,13 +658,44 @@ func (c *Coordinator) Run() int {
 					ch = p.Chunk / 2
 				}
 				next, complete = c.explore(frontier, a, level, ch)
+				name := "full alphabet"
+				if level > p.FullDepth {
+					name = "reduced alphabet"
+				}
+				c.phases = append(c.phases, fmt.Sprintf("level %d: %s from %d states, complete=%v", level, name, len(frontier), complete))
 			}
 			if !complete {
 				c.exhaustive = false
 				break
 			}
 			c.depthCompleted = level
+			if level <= p.FullDepth {
+				c.fullDepthCompleted = level
+			}
 			frontier = next
+		}
+		// thorough tier: once the reduced alphabet has been taken to the full depth, the rest of the FULL alphabet is sent
+		// from every state of level ExtraFullLevel-1 for as long as the budget lasts (states found here are counted, not expanded)
+		if l := p.ExtraFullLevel; l > 1 && c.exhaustive && !c.failed() && len(frontiers[l]) > 0 {
+			rest := map[string][]string{}
+			for _, s := range p.Sides {
+				in := map[string]bool{}
+				for _, d := range alphaRed[s] {
+					in[d] = true
+				}
+				for _, d := range alphaFull[s] {
+					if !in[d] {
+						rest[s] = append(rest[s], d)
+					}
+				}
+			}
+			_, complete := c.explore(frontiers[l], rest, l, p.Chunk)
+			c.phases = append(c.phases, fmt.Sprintf("level %d: rest of the full alphabet from %d states, complete=%v", l, len(frontiers[l]), complete))
+			if complete {
+				c.fullDepthCompleted = l
+			} else {
+				c.exhaustive = false
+			}
 		}
 	}
 	return c.finish(alphaFull, alphaRed)
@@ -874,7 +910,7 @@ func (c *Coordinator) finish(alphaFull, alphaRed map[string][]string) int {
 		"evaluations": c.transitions, "distinct_nontrivial": c.states,
 		"rule": "explicit breadth-first search over server states with the REST request alphabet itself as the transition relation, on the real routers (ServeHTTP on a recorder) around a real replica.Server on disk (replica side) and a real controller.Controller with real *remote.Remote backends over model replica nodes (controller side); seeded with the listed state classes; every request of the alphabet is sent once in every state of every level and then 7 more times in a row (repeat family); a state is distinct/non-trivial when its canonical key (dump of the server object + files / E-B key) is new; states reached by a violating request are not expanded",
 		"states_found_but_not_expanded_quick_tier_representatives_only": c.notExpanded, "expand_all_states": p.ExpandAll, "expand_all_states_found_up_to_level": p.ExpandAllDepth, "repeat_family_levels": p.RepeatDepth,
-		"depth_completed": c.depthCompleted, "max_depth": p.Depth, "full_alphabet_depth": p.FullDepth, "states_per_level": c.perLevel, "requests_per_level_without_repeats": c.execPerLevel,
+		"phases": c.phases, "full_alphabet_depth_completed": c.fullDepthCompleted, "depth_completed": c.depthCompleted, "max_depth": p.Depth, "full_alphabet_depth": p.FullDepth, "states_per_level": c.perLevel, "requests_per_level_without_repeats": c.execPerLevel,
 		"alphabet_full": lens(alphaFull), "alphabet_reduced": lens(alphaRed),
 		"requests_per_state_class": c.perClass, "routes": routes, "actions": actions, "body_classes": c.bodyClasses,
 		"repeat_family_runs": c.repeatRuns, "repeat_family_requests": c.repeatRequests, "repeat_family_suppressed_same_signature_as_reported_blocking": c.repSuppressed,
